@@ -382,7 +382,7 @@ func reservedAsIdentSpace(r *explore.Run, body func(c *explore.Ctx, e *Entry, s 
 // keywordReplaceSpace is S5k: every sentence of G with <=k deviations (k+1 in the thorough tier) with each of its
 // keyword / pseudo-keyword tokens replaced by each sibling keyword, through the sentence's own entry point.
 func keywordReplaceSpace(r *explore.Run, k int, body func(c *explore.Ctx, e *Entry, s string)) {
-	if r.Tier == "thorough" {
+	if r.Tier == "thorough" && k < 2 {
 		k++
 	}
 	r.Explore(explore.Options{Space: "S5k/keyword-replacements", MaxDev: k, SplitLen: 3,
@@ -597,7 +597,15 @@ func init() {
 	// few deviations additionally in uniform re-spellings (positions must not depend on the trivia
 	// being single blanks, nor on the line-ending convention)
 	grammarTreeSpace = func(r *explore.Run, base int, body func(c *explore.Ctx, e *Entry, s string)) {
-		grammarSpace(r, "S4/grammar", base, func(c *explore.Ctx, s *grammar.Sentence) {
+		// thorough tier: the same bound for all roots (one more deviation multiplies the sentences by ~50 and every
+		// sentence is fed in two spellings through two entry points), but ten times the cap under which a root gets
+		// one or two more deviations
+		capPerRoot, respellBase := int64(30000), base
+		if r.Tier == "thorough" {
+			base--
+			capPerRoot = 300000
+		}
+		grammarSpaceCap(r, "S4/grammar", base, capPerRoot, func(c *explore.Ctx, s *grammar.Sentence) {
 			feed := func(text string) {
 				c.Input(text)
 				if se := specificEntry(s.Kind); se != "" {
@@ -615,7 +623,7 @@ func init() {
 				c.Count("tight_spellings", 1)
 				feed(tight)
 			}
-			if c.Cost() <= base-2 || c.Cost() <= 1 {
+			if c.Cost() <= respellBase-2 || c.Cost() <= 1 {
 				for _, tr := range respellTrivia {
 					var b strings.Builder
 					for i, t := range s.Src {
